@@ -45,6 +45,8 @@ func rhsPaths(e Expr, out *[]Path, ineFirst *[]Path) {
 //                same expression writes (equal, prefix or extension)
 //   F-SETMISSING a SET right-hand side reads a path that does not resolve
 //                (other than as first argument of if_not_exists)
+//   F-FLOAT      a + / - / ADD whose float64 result differs from the exact
+//                decimal result
 func UpdateGuards(u Update, base Item, env Env, keyAttrs []string) []string {
 	var ids []string
 	type tgt struct {
@@ -65,6 +67,38 @@ func UpdateGuards(u Update, base Item, env Env, keyAttrs []string) []string {
 				}
 			}
 			n++
+		}
+	}
+	fenv := env
+	fenv.Item = base
+	if fenv.Item == nil {
+		fenv.Item = Item{}
+	}
+	var arith func(e Expr)
+	arith = func(e Expr) {
+		walkExpr(e, func(x Expr) {
+			if ar, ok := x.(Arith); ok {
+				l, ls, _ := fenv.evalSetValue(ar.L)
+				r, rs, _ := fenv.evalSetValue(ar.R)
+				if ls == stOK && rs == stOK && l.T == "N" && r.T == "N" && !FloatOpExact(l.S, r.S, ar.Op == "-") {
+					ids = append(ids, "F-FLOAT")
+				}
+			}
+		})
+	}
+	for _, c := range u.Clauses {
+		for _, a := range c.Actions {
+			switch c.Kind {
+			case "SET":
+				arith(a.Value)
+			case "ADD":
+				o := fenv.evalOperand(a.Value)
+				if rp, ok := fenv.resolvePath(a.Path); ok && o.st == stOK && o.v.T == "N" {
+					if cur, found, _ := lookup(fenv.Item, rp); found && cur.T == "N" && !FloatOpExact(cur.S, o.v.S, false) {
+						ids = append(ids, "F-FLOAT")
+					}
+				}
+			}
 		}
 	}
 	n = 0
